@@ -93,7 +93,22 @@ func isReaderEmpty(reader io.ReaderAt) (bool, error) {
 	return len(buf) == 0, nil
 }
 
+// wholeReadsAt hides the io.EOF that a ReaderAt may return together with all the requested bytes
+// when the read ends exactly at the end of the input (io.ReaderAt allows either).
+type wholeReadsAt struct{ io.ReaderAt }
+
+func (r wholeReadsAt) ReadAt(p []byte, off int64) (int, error) {
+	n, err := r.ReaderAt.ReadAt(p, off)
+	if n == len(p) && errors.Is(err, io.EOF) {
+		err = nil
+	}
+	return n, err
+}
+
 func NewReader(reader io.ReaderAt) (*Reader, error) {
+	if reader != nil {
+		reader = wholeReadsAt{reader}
+	}
 	empty, err := isReaderEmpty(reader)
 	if err != nil {
 		return nil, fmt.Errorf("failed to check if reader is empty: %w", err)
